@@ -5,7 +5,7 @@ from .. import initgen
 ID = "C05"
 SUITES = ["init"]
 LEAN_MODULES = ["VpnCloud.Proofs.C05"]
-THEOREMS = []
+THEOREMS = ["VpnCloud.Proofs.C05." + n for n in ("masterKey_comm", "masterKey_comm_wf", "masterKey_inj", "halves_opposite", "initiator_success_binds", "no_second_success", "success_stage")]
 BATCH = 20
 SEARCH_BUDGET_S = 400
 EXPECTED_CLASSES = ["ideliver:reply", "ideliver:init", "ideliver:err:crypto", "ideliver:err:parse", "ideliver:msg"]
